@@ -1363,11 +1363,17 @@ func (fi *FnInfo) reachHit(starts []state, cut map[edgeKey]bool, targets map[int
 // the start blocks (entered with an empty mask) to any of the target blocks.
 // If no target is reachable at all, ok is false.
 func (fi *FnInfo) mustPassBetween(starts []int, targets map[int]bool) (labels map[string]string, ok bool) {
+	return fi.mustPassBetweenCut(starts, targets, nil)
+}
+
+// mustPassBetweenCut is mustPassBetween on the graph without the edges of baseCut
+// (e.g. the back edges of a loop: facts of one iteration).
+func (fi *FnInfo) mustPassBetweenCut(starts []int, targets map[int]bool, baseCut map[edgeKey]bool) (labels map[string]string, ok bool) {
 	var ss []state
 	for _, b := range starts {
 		ss = append(ss, state{b, 0, -1})
 	}
-	if !fi.reachHit(ss, nil, targets) {
+	if !fi.reachHit(ss, baseCut, targets) {
 		return nil, false
 	}
 	labels = map[string]string{}
@@ -1377,7 +1383,11 @@ func (fi *FnInfo) mustPassBetween(starts []int, targets map[int]bool) (labels ma
 			continue
 		}
 		for j := 0; j < 2; j++ {
-			if fi.reachHit(ss, map[edgeKey]bool{{b.Index, j}: true}, targets) {
+			cut := map[edgeKey]bool{{b.Index, j}: true}
+			for e := range baseCut {
+				cut[e] = true
+			}
+			if baseCut[edgeKey{b.Index, j}] || fi.reachHit(ss, cut, targets) {
 				continue
 			}
 			truth := j == 0
